@@ -288,9 +288,10 @@ def run(tier, seed):
             else:
                 chk.violation(dict(sel, check='trace', guard=v, solver=str(solver)), 'optimised run rejected at step %d: %s' % (line, v), dict(cfg=c))
         chk.sample(dict(kind='trace of an optimised Plant run', trace=traces[0], verdict=verdicts[0]), limit=5)
+    ramp_profiles(chk, tier, seed)
     chk.assumptions += ['consistent declared initial state (off => last dispatch 0; running => last dispatch within capacity)',
                         'equal step lengths (the implementation scales ramp and last dispatch with the first step)',
-                        'start/shutdown ramp PROFILES are not modelled yet (families use none)']
+                        'start/shutdown ramp profiles: plants that are off when the horizon begins, no ordinary ramp limit, whole-step profiles']
     return chk.finish(rule='all (min runtime, min downtime, initial state) tuples on T=%d with every one of the 2^T patterns pinned; output families '
                            '(capacity, ramp, costs); fuel/heat families; non-trivial = configuration with on-variables whose patterns were all compared' % T,
                       exhaustive=True)
@@ -319,3 +320,137 @@ def uc_trace(real, res, K=1000, tol=3):
     coef = (max(abs(v) for v in c['price']) + c['runcost'] * c['d'] + max(c['startcost']) + c['fuelon'] * c['d'] + c['fuelstart'] + 2) * cd * c['T'] * 4 * max(c['feff'])
     return dict(cfg=c, K=K, tol=tol, vtol=int(tol * coef + 2), chkflag=bool(c['startcost'][0] > 0 or c['fuelstart'] > 0), steps=steps,
                 rval=REC.fx(float(res.value) * cd, K))
+
+
+# ------------------------------------------------------------------------------------------ start / shutdown ramp profiles
+RAMP_RELAX = ['min_down', 'min_run', 'start_flag_missing', 'off_output', 'cap', 'start_profile', 'shutdown_profile', 'off_without_shutdown_profile',
+              'shutdown_profile_must_end_off']
+RAMP_INVS = ['RunLongEnough', 'ProfilesFollowed', 'OffZero']
+
+
+def fam_ramp_profiles(T=6, thorough=False):
+    out = []
+    cid = 0
+    srs = [[], [(1, 1)], [(1, 1), (2, 2)], [(1, 2)]]
+    drs = [[], [(1, 1)], [(2, 2), (1, 1)], [(1, 2)]]      # dr[0]: the last step before switching off
+    for sr, dr, minrun, mindown, off0 in itertools.product(srs, drs, (0, 2), (0, 2), (0, 1)):
+        if not sr and not dr:
+            continue
+        if mindown > 1 and off0 == 0:
+            continue      # the constructor requires a declared initial state
+        if not thorough and (minrun, mindown) == (2, 2) and len(sr) + len(dr) > 2:
+            continue
+        cid += 1
+        out.append(dict(id=cid, T=T, d=1, lo=3, hi=4, price=[-3, 1, -2, 2, -3, 1, -1, -2][:T], minrun=minrun, mindown=mindown, off0=off0, startcost=1,
+                        sr=[list(x) for x in sr], dr=[list(x) for x in dr], q=1))
+    return out
+
+
+class RampReal:
+    def __init__(self, c):
+        self.c = c
+        start = pd.Timestamp(CALENDARS['h'][0])
+        self.tg = eao.assets.Timegrid(start, start + c['T'] * pd.Timedelta('1h'), freq='h')
+        kw = dict(name='PL', nodes=[eao.assets.Node('power')], min_cap=float(c['lo']), max_cap=float(c['hi']), price='p', start_costs=float(c['startcost']),
+                  min_runtime=c['minrun'], min_downtime=c['mindown'], time_already_off=c['off0'], time_already_running=0, last_dispatch=0)
+        if c['sr']:
+            kw.update(start_ramp_lower_bounds=[float(x[0]) for x in c['sr']], start_ramp_upper_bounds=[float(x[1]) for x in c['sr']])
+        if c['dr']:
+            kw.update(shutdown_ramp_lower_bounds=[float(x[0]) for x in c['dr']], shutdown_ramp_upper_bounds=[float(x[1]) for x in c['dr']])
+        self.asset = eao.assets.Plant(**kw)
+        with quiet():
+            self.op = self.asset.setup_optim_problem({'p': np.asarray(c['price'], float)}, self.tg)
+        self.prob = Problem(self.op)
+        m = self.op.mapping
+        self.var = {}
+        for idx, vn, ts in zip(m.index.values, m['var_name'].values, m['time_step'].values):
+            self.var.setdefault((vn, int(ts)), int(idx))
+
+    def pins(self, steps, what=('on', 'start', 'p')):
+        pins = {}
+        for t, s_ in enumerate(steps):
+            if 'p' in what:
+                pins[self.var[('disp', t)]] = float(s_['p'])
+            if 'on' in what and ('bool_on', t) in self.var:
+                pins[self.var[('bool_on', t)]] = 1.0 if s_['on'] else 0.0
+            if 'start' in what and ('bool_start', t) in self.var:
+                pins[self.var[('bool_start', t)]] = 1.0 if s_['start'] else 0.0
+        return pins
+
+
+def enumerate_ramp(cfgs, relax=(), name='MCramp'):
+    wd = tlc.scratch()
+    try:
+        defs = {'MCConfigs': '{' + ',\n   '.join(tlc.tla(c) for c in cfgs) + '}', 'MCRelax': tlc.tla(set(relax))}
+        lines = ['SPECIFICATION Spec', 'CONSTANT Configs <- MCConfigs', 'CONSTANT Relax <- MCRelax', 'CONSTRAINT Emit', 'CHECK_DEADLOCK FALSE'] + ['INVARIANT ' + i for i in RAMP_INVS]
+        tlc.write_mc(wd, name, 'EAOUnitCommitRamp', defs, lines)
+        r = tlc.run_tlc(wd, name)
+        if r['unparsed']:
+            r = tlc.run_tlc(wd, name, workers=1)
+        behs = collections.defaultdict(list)
+        for tag, rec in r['records']:
+            behs[rec['cid']].append(rec)
+        return behs, dict(generated=r['generated'], distinct=r['distinct'], violated=r['violated'], tail=r['out'][-2000:] if r['violated'] else '')
+    finally:
+        shutil.rmtree(wd, ignore_errors=True)
+
+
+def ramp_profiles(chk, tier, seed):
+    th = tier == 'thorough'
+    cfgs = fam_ramp_profiles(6 if th else 5, thorough=th)
+    behs, st = enumerate_ramp(cfgs)
+    chk.add_tlc(st)
+    if st['violated']:
+        chk.violation(dict(check='spec_invariant', invariant=st['violated'], family='ramp_profiles'), 'TLC: invariant violated on EAOUnitCommitRamp', st['tail'])
+        return
+    negs, st2 = enumerate_ramp(cfgs if th else cfgs[seed % 2::2], relax=RAMP_RELAX, name='MCrampneg')
+    chk.add_tlc(st2)
+    for c in cfgs:
+        sel = dict(family='ramp_profiles', T=c['T'], start_profile=len(c['sr']), shutdown_profile=len(c['dr']), minrun=c['minrun'], mindown=c['mindown'], off0=c['off0'])
+        try:
+            real = RampReal(c)
+        except Exception as e:
+            chk.violation(dict(sel, check='setup_raises', error=type(e).__name__), 'set-up raised %s: %s' % (type(e).__name__, e), dict(cfg=c))
+            continue
+        pos = behs.get(c['id'], [])
+        prefix_keys = set()
+        for b in pos:
+            chk.cnt['eval_pos'] += 1
+            for n in range(len(b['steps']) + 1):
+                prefix_keys.add((n, tuple(sorted(real.pins(b['steps'][:n]).items()))))
+            stt, val, x = real.prob.solve(real.pins(b['steps']))
+            if stt != 'optimal':
+                chk.violation(dict(sel, check='replay_positive'), 'behaviour of the profile automaton is infeasible in the implementation', dict(cfg=c, behaviour=b))
+            elif abs(val - b['val']) > 1e-7 * max(1, abs(val)):
+                chk.violation(dict(sel, check='replay_value'), 'value differs: implementation %.9g specification %.9g' % (val, b['val']), dict(cfg=c, behaviour=b))
+        for b in [b for b in negs.get(c['id'], []) if b['fault']]:
+            pins = real.pins(b['steps'])
+            chk.cnt['fault_' + b['fault']] += 1
+            if (len(b['steps']), tuple(sorted(pins.items()))) in prefix_keys:
+                chk.cnt['neg_skipped'] += 1
+                continue
+            chk.cnt['eval_neg'] += 1
+            if real.prob.solve(pins)[0] == 'optimal':
+                last_step = b['at'] == c['T']
+                chk.violation(dict(sel, check='replay_negative', fault=b['fault'], at_last_step=last_step),
+                              'near-miss (%s at step %d of %d) is feasible in the implementation' % (b['fault'], b['at'], c['T']), dict(cfg=c, behaviour=b))
+        reach = {tuple(bool(s_['on']) for s_ in b['steps']) for b in pos}
+        for pat in itertools.product((False, True), repeat=c['T']):
+            chk.cnt['eval_patterns'] += 1
+            feas = real.prob.solve(real.pins([dict(on=o) for o in pat], what=('on',)))[0] == 'optimal'
+            if feas != (pat in reach):
+                chk.violation(dict(sel, check='pattern_feasible_but_unreachable' if feas else 'pattern_reachable_but_infeasible', ends_on=bool(pat[-1]),
+                                   last_run=_last_run(pat)),
+                              'pattern %s: implementation %s, profile automaton %s' % (''.join('1' if o else '0' for o in pat), 'feasible' if feas else 'infeasible',
+                                                                                       'reachable' if pat in reach else 'unreachable'), dict(cfg=c, pattern=pat))
+        chk.nontrivial(('ramp', c['id']))
+
+
+def _last_run(pat):
+    """length of the on-run at the end of the horizon (0 if the pattern ends off)"""
+    n = 0
+    for o in reversed(pat):
+        if not o:
+            break
+        n += 1
+    return n
